@@ -128,7 +128,8 @@ theorem match_notes_eq_model (ri : List Ival) (rp rv : List Rat) (ei : List Ival
       | nil => rfl
       | cons p m =>
         have hsz : ¬ (PyTV.pairsSize (p :: m) = 0) := by simp [PyTV.pairsSize]
-        simp only [hsz, decide_false, Bool.false_eq_true, if_false, List.isEmpty_cons, velKeep, PyTV.take, PyTV.pcol0, PyTV.pcol1]
+        simp only [hsz, decide_false, Bool.false_eq_true, if_false, List.isEmpty_cons, velKeep, PyTV.take, PyTV.pcol0, PyTV.pcol1,
+          ok_bind]
         cases h1 : lookupAll (List.map (fun x => (x - List.foldl minR v0 vs) / maxR 1 (List.foldl maxR v0 vs - List.foldl minR v0 vs)) (v0 :: vs))
             (List.map Prod.fst (p :: m)) with
         | error x => rfl
